@@ -104,7 +104,12 @@ def evaluate(job):
             res["error"] = "engine build failed: " + out[-300:]
             return res
         det = {}
-        for c in CHECKS:
+        # ONLY_TARGETED=1: confirm the change and run the targeted check only (plus EXTRA="C14 C18" if given)
+        checks = CHECKS
+        if os.environ.get("ONLY_TARGETED"):
+            checks = sorted(set([ident] + os.environ.get("EXTRA", "").split()))
+            res["only_checks"] = checks
+        for c in checks:
             t0 = time.time()
             rc, out = sh(f"{exe} check {c} --tier quick --jobs 4", cwd=f"{vroot}/engine", env=env)
             first = [l for l in out.split("\n") if l.startswith("VIOLATION")][:1]
@@ -119,8 +124,8 @@ def evaluate(job):
             rc, out = sh(f"{exe} check {ident} --tier thorough --jobs 4 --max-secs 600", cwd=f"{vroot}/engine", env=env)
             det[ident]["thorough_exit"] = rc
         res["detection"] = det
-        res["caught_by_quick"] = [c for c in CHECKS if det[c]["quick_exit"] == 1]
-        res["machinery_errors"] = [c for c in CHECKS if det[c]["quick_exit"] not in (0, 1)]
+        res["caught_by_quick"] = [c for c in checks if det[c]["quick_exit"] == 1]
+        res["machinery_errors"] = [c for c in checks if det[c]["quick_exit"] not in (0, 1)]
         res["ran"].append("every check's quick tier in a private copy of /verif whose engine depends on the scratch worktree (equivalent to git -C /repo apply; ./check <ID> quick; git -C /repo checkout -- .)")
         return res
     finally:
